@@ -7,7 +7,9 @@
 package vstate
 
 import (
+	"crypto/sha1"
 	"fmt"
+	"sync"
 	"time"
 )
 
@@ -22,6 +24,7 @@ type Config[S any] struct {
 	Enabled  func(s S, op int) bool         // optional
 	MaxDepth int                            // <=0: until fixpoint
 	MaxStates int
+	Workers   int                           // goroutines expanding a BFS layer (default 1)
 	Deadline time.Time
 }
 
@@ -52,7 +55,10 @@ func names[S any](c *Config[S], p []int) []string {
 	return out
 }
 
-// Explore runs the search. It stops at the first violation.
+// Explore runs the search. It stops at the first violation (the one with the shortest path
+// and, among those, the first in alphabet order). With Workers > 1 the successors of a
+// BFS layer are computed in parallel (New/Apply/Canon/Check must then be safe to call from
+// several goroutines on different systems); the merge is sequential and deterministic.
 func Explore[S any](c Config[S]) *Result {
 	start := time.Now()
 	res := &Result{Name: c.Name, Complete: true}
@@ -65,52 +71,92 @@ func Explore[S any](c Config[S]) *Result {
 		}
 		return s, ""
 	}
-	seen := map[string]bool{}
+	type key = [20]byte
+	seen := map[key]bool{}
 	init, _ := build(nil)
 	if m := c.Check(init); m != "" {
 		res.Failures = append(res.Failures, Failure{Msg: m})
 		return res
 	}
-	seen[c.Canon(init)] = true
+	seen[sha1.Sum([]byte(c.Canon(init)))] = true
 	res.States = 1
 	frontier := [][]int{nil}
 	res.PerDepth = []int{1}
+	workers := c.Workers
+	if workers < 1 {
+		workers = 1
+	}
+	type succ struct {
+		path []int
+		k    key
+		fail string
+		skip bool
+	}
+	expand := func(path []int) []succ {
+		out := make([]succ, 0, c.NOps)
+		for op := 0; op < c.NOps; op++ {
+			if c.Enabled != nil {
+				s, _ := build(path)
+				if !c.Enabled(s, op) {
+					continue
+				}
+			}
+			np := append(append(make([]int, 0, len(path)+1), path...), op)
+			s, m := build(np)
+			if m == "" {
+				m = c.Check(s)
+			}
+			if m != "" {
+				out = append(out, succ{path: np, fail: m})
+				continue
+			}
+			out = append(out, succ{path: np, k: sha1.Sum([]byte(c.Canon(s)))})
+		}
+		return out
+	}
 	for depth := 1; len(frontier) > 0; depth++ {
 		if c.MaxDepth > 0 && depth > c.MaxDepth {
 			break
 		}
 		var next [][]int
-		for _, path := range frontier {
+		const chunk = 256
+		for base := 0; base < len(frontier); base += chunk * workers {
 			if !c.Deadline.IsZero() && time.Now().After(c.Deadline) || c.MaxStates > 0 && res.States >= c.MaxStates {
 				res.Complete = false
 				res.WallS = time.Since(start).Seconds()
 				return res
 			}
-			for op := 0; op < c.NOps; op++ {
-				if c.Enabled != nil {
-					s, _ := build(path)
-					if !c.Enabled(s, op) {
-						continue
+			end := base + chunk*workers
+			if end > len(frontier) {
+				end = len(frontier)
+			}
+			results := make([][]succ, end-base)
+			var wg sync.WaitGroup
+			for w := 0; w < workers; w++ {
+				wg.Add(1)
+				go func(w int) {
+					defer wg.Done()
+					for i := base + w; i < end; i += workers {
+						results[i-base] = expand(frontier[i])
 					}
-				}
-				np := append(append(make([]int, 0, len(path)+1), path...), op)
-				s, m := build(np)
-				res.Transitions++
-				if m == "" {
-					m = c.Check(s)
-				}
-				if m != "" {
-					res.Failures = append(res.Failures, Failure{Msg: m, Path: np, Ops: names(&c, np)})
-					res.WallS = time.Since(start).Seconds()
-					return res
-				}
-				k := c.Canon(s)
-				if !seen[k] {
-					seen[k] = true
-					res.States++
-					next = append(next, np)
-					if len(np) > len(res.Sample) {
-						res.Sample = names(&c, np)
+				}(w)
+			}
+			wg.Wait()
+			for _, rs := range results {
+				for _, r := range rs {
+					res.Transitions++
+					if r.fail != "" {
+						res.Failures = append(res.Failures, Failure{Msg: r.fail, Path: r.path, Ops: names(&c, r.path)})
+						res.WallS = time.Since(start).Seconds()
+						return res
+					}
+					if !seen[r.k] {
+						seen[r.k] = true
+						res.States++
+						next = append(next, r.path)
+						if len(r.path) > len(res.Sample) {
+							res.Sample = names(&c, r.path)
+						}
 					}
 				}
 			}
